@@ -448,7 +448,8 @@ struct Progress { volatile long idx; };
 static Progress* g_prog = nullptr;
 static long g_eval = 0, g_nontriv = 0, g_correct = 0, g_rejected = 0, g_violating = 0, g_na = 0;
 static long g_form_n[NFORMS] = {};
-static long g_led[5] = {};   // created, freed, commits, packs, unpacks (summed over children)
+static long g_led[5] = {};
+static std::vector<char> g_kind;   // outcome of every configuration of this shard, by position ('C','R','V','N'; 0 = not executed)   // created, freed, commits, packs, unpacks (summed over children)
 
 static std::string clean(std::string s) { for(auto& ch : s) { if(ch == '\t' || ch == '\n' || ch == '\r') { ch = ' '; } } if(s.size() > 600) { s.resize(600); } return s; }
 
@@ -457,7 +458,8 @@ static bool cfg_nontrivial(Cfg const& c) {
 	if(c.form != F_PAIR) { return s.nontrivial; }
 	return s.nontrivial && (*W.shapes[static_cast<std::size_t>(c.dr)].st)[static_cast<std::size_t>(c.ds)].nontrivial;
 }
-static void account(Cfg const& c, char kind, std::vector<Symptom> const& sy) {
+static void account(std::size_t pos, Cfg const& c, char kind, std::vector<Symptom> const& sy) {
+	if(pos < g_kind.size()) { g_kind[pos] = kind; }
 	if(kind == 'N') { ++g_na; return; }
 	++g_eval; ++g_form_n[c.form]; if(cfg_nontrivial(c)) { ++g_nontriv; }
 	if(kind == 'C') { ++g_correct; mc::R.outcome(std::string(form_tag[c.form]) + "|" + (*W.shapes[static_cast<std::size_t>(c.sr)].st)[static_cast<std::size_t>(c.ss)].lclass + "|" + (*W.shapes[static_cast<std::size_t>(c.dr)].st)[static_cast<std::size_t>(c.ds)].lclass + "|correct"); return; }
@@ -468,7 +470,7 @@ static void account(Cfg const& c, char kind, std::vector<Symptom> const& sy) {
 
 static void run_batches(std::vector<Cfg> const& cfgs, std::size_t batch) {
 	if(!g_prog) { g_prog = static_cast<Progress*>(mmap(nullptr, sizeof(Progress), PROT_READ | PROT_WRITE, MAP_SHARED | MAP_ANONYMOUS, -1, 0)); }
-	std::size_t pos = 0;
+	std::size_t pos = 0; g_kind.assign(cfgs.size(), 0);
 	while(pos < cfgs.size()) {
 		if(mc::past_deadline()) { mc::R.exhaustive = false; mc::R.note("deadline: " + std::to_string(cfgs.size() - pos) + " configurations of this shard not executed"); return; }
 		std::size_t end = std::min(cfgs.size(), pos + batch);
@@ -521,7 +523,7 @@ static void run_batches(std::vector<Cfg> const& cfgs, std::size_t batch) {
 		std::size_t completed_to = clean_exit ? static_cast<std::size_t>(done_at) : static_cast<std::size_t>(g_prog->idx);   // configurations [pos, completed_to) ran to completion
 		for(std::size_t i = pos; i < completed_to && i < end; ++i) {
 			auto it = rec.find(i);
-			if(it == rec.end()) { account(cfgs[i], 'C', {}); } else { account(cfgs[i], it->second.first, it->second.second); }
+			if(it == rec.end()) { account(i, cfgs[i], 'C', {}); } else { account(i, cfgs[i], it->second.first, it->second.second); }
 		}
 		if(clean_exit) {
 			if(completed_to < end) { mc::R.exhaustive = false; mc::R.note("deadline: " + std::to_string(cfgs.size() - completed_to) + " configurations of this shard not executed"); return; }
@@ -533,10 +535,10 @@ static void run_batches(std::vector<Cfg> const& cfgs, std::size_t batch) {
 		std::string cause = WIFSIGNALED(st) ? ("signal " + std::to_string(WTERMSIG(st))) : ("exit status " + std::to_string(WEXITSTATUS(st)));
 		std::string cls = mc::crash_class(se);
 		bool lib_assert = WIFSIGNALED(st) && WTERMSIG(st) == SIGABRT && cls == "assertion" && se.find("include/boost/multi") != std::string::npos;
-		if(lib_assert) { account(cfgs[culprit], 'R', {Symptom{"assertion", mc::crash_digest(se)}}); }
+		if(lib_assert) { account(culprit, cfgs[culprit], 'R', {Symptom{"assertion", mc::crash_digest(se)}}); }
 		else {
 			std::string tag = "crash:" + (cls == "assertion" ? std::string("foreign-assertion") : cls == "signal" ? cause : cls);
-			account(cfgs[culprit], 'V', {Symptom{tag, "the child died (" + cause + "): " + clean(mc::crash_digest(se))}});
+			account(culprit, cfgs[culprit], 'V', {Symptom{tag, "the child died (" + cause + "): " + clean(mc::crash_digest(se))}});
 		}
 		pos = culprit + 1;
 	}
@@ -647,7 +649,7 @@ int main(int argc, char** argv) {
 			if(mc::R.viol.empty()) {
 				for(int f : {F_MSG_PACK, F_MSG_UNPACK, F_SUBARRAY_PACK, F_PAIR}) {
 					for(std::size_t i = 0; i < mine.size(); ++i) {
-						Cfg const& c = mine[i]; if(c.form != f) { continue; }
+						Cfg const& c = mine[i]; if(c.form != f || g_kind[i] != 'C' || skip.count(replay_of(c))) { continue; }
 						State const& s = (*W.shapes[static_cast<std::size_t>(c.sr)].st)[static_cast<std::size_t>(c.ss)];
 						if(s.offs.size() < 4 || s.m.rank() < 2 || s.lclass.find("contiguous") != std::string::npos) { continue; }
 						if(f == F_PAIR && (*W.shapes[static_cast<std::size_t>(c.dr)].st)[static_cast<std::size_t>(c.ds)].lclass.find("permuted") == std::string::npos) { continue; }
